@@ -54,6 +54,7 @@ func New(next http.Handler, extract utils.SourceExtractor, maxConnections int64,
 		}
 	}
 
+	verifEmit("cl.new", cl, cl.maxConnections)
 	return cl, nil
 }
 
